@@ -140,6 +140,9 @@ def gen_history(rng):
     acts = {}      # a -> dict(phase, name, remote, ps, cell)
     holder = {}    # name -> a (python-side bookkeeping only to produce interesting, valid op lists)
     names = [1, 2, 3][:rng.choice([1, 2, 2, 3])]
+    if rng.random() < 0.3:
+        # special name shapes of the harness pool: 90 = the EMPTY name, 91 one character, 92 very long, 93 non-ASCII
+        names = names[:1] + [rng.choice([90, 90, 91, 92, 93])]
     n_ops = rng.choice([5, 8, 12, 16, 22, 30])
     # share of thread-local spawns in this history (none in half of them: the spawner's OS thread is slower)
     tl_p = rng.choice([0, 0, 0.25, 0.5])
@@ -230,6 +233,11 @@ def directed():
             out.append([["sp", 0, 1, fk, 0], ["wh", 1], ["sp", 1, 1, nk, 0], ["wh", 1], ["sp", 2, 1, "ok", 0],
                         ["wh", 1], ["whp", h], ["stop", h], ["wait", h], ["wh", 1], ["sp", 3, 1, fk, 0], ["wh", 1],
                         ["sp", 4, 1, "tlok", 0], ["wh", 1]])
+    # (d) special name shapes (empty, one character, very long, non-ASCII): full life cycle under the name
+    for nmk in (90, 91, 92, 93):
+        for k in ("ok", "tlok"):
+            out.append([["sp", 0, nmk, k, 0], ["wh", nmk], ["sp", 1, nmk, "ok", 0], ["wh", nmk], ["stop", 0], ["wait", 0],
+                        ["wh", nmk], ["sp", 2, nmk, k, 0], ["wh", nmk], ["kill", 2], ["wait", 2], ["wh", nmk]])
     # two names: the rejected spawn must not disturb the other name either
     for dk in ("tlok", "ok"):
         out.append([["sp", 0, 1, "ok", 0], ["sp", 1, 2, "tlok", 0], ["sp", 2, 1, dk, 0], ["sp", 3, 2, dk, 0], ["wh", 1], ["wh", 2],
